@@ -99,6 +99,15 @@ func selfTest() error {
 		{`{"jsonrpc":"2.0","method":"opt","params":{"tag":"t","n":1,"o2":[1,2]},"id":1}`, `{"jsonrpc":"2.0","result":{"m":"opt","a":["t",1,null,[1,2]]},"id":1}`, []call{{"opt", `["t",1,null,[1,2]]`}}, ""},
 		{`{"jsonrpc":"2.0","method":"opt","params":{"tag":"t","n":1,"o2":[1,2]},"id":1}`, `{"jsonrpc":"2.0","result":{"m":"opt","a":["t",1,1,[1,2]]},"id":1}`, []call{{"opt", `["t",1,1,[1,2]]`}}, "wrong-payload"},
 		{`{"jsonrpc":"2.0","method":"vstruct","params":["t",{"A":0}],"id":1}`, `{"jsonrpc":"2.0","result":{"m":"vstruct","a":["t",{"A":0,"B":""}]},"id":1}`, []call{{"vstruct", `["t",{"A":0,"B":""}]`}}, "wrong-outcome"},
+		{`{"jsonrpc":"1.0","method":"ping","id":[1]}`, `{"jsonrpc":"2.0","error":{"code":-32600,"message":"x"},"id":[1]}`, nil, "ill-typed-id-echoed"},
+		{`{"jsonrpc":"1.0","method":"ping","id":[1]}`, `{"jsonrpc":"2.0","error":{"code":-32600,"message":"x"},"id":null}`, nil, ""},
+		{`[{"jsonrpc":"2.0","method":"nope"},{"jsonrpc":"1.0","method":"ping","id":{}}]`, `[{"jsonrpc":"2.0","error":{"code":-32600,"message":"x"},"id":{}},{"jsonrpc":"2.0","error":{"code":-32601,"message":"x"},"id":null}]`, nil, "ill-typed-id-echoed+notification-answered"},
+		{req + "x", okOut, []call{subCall}, ""},
+		{req + "x", `{"jsonrpc":"2.0","error":{"code":-32700,"message":"x"},"id":null}`, nil, ""},
+		{req + "x", `{"jsonrpc":"2.0","error":{"code":-32700,"message":"x"},"id":null}`, []call{subCall}, "unexpected-response"},
+		{`[` + req + `,{"jsonrpc":"2.0","method":"echo","params":["u"]}]`, `[` + okOut + `]`, []call{{"echo", `["u"]`}, subCall}, ""},
+		{`[` + req + `,{"jsonrpc":"2.0","method":"echo","params":["u"]}]`, `[` + okOut + `]`, []call{subCall}, "missing-invocation"},
+		{`[{"jsonrpc":"2.0","method":"echo","params":["u"]}]`, `[]`, []call{{"echo", `["u"]`}}, "malformed-output:empty-array"},
 		{`{"jsonrpc":"2.0","method":"nullres","params":["t"],"id":1}`, `{"jsonrpc":"2.0","result":null,"id":1}`, []call{{"nullres", `["t"]`}}, ""},
 	}
 	for i, c := range cases {
